@@ -1003,7 +1003,7 @@ class PandasModelBase(
         jointype = jointype.lower()
         mp = {
             "full": "outer",
-            "cross": "outer",  # cross new to Pandas 1.2.0 December 2020
+            "cross": "inner",  # on the constant scratch key: every pair, and no rows when a side is empty
         }
         try:
             return mp[jointype]
